@@ -84,7 +84,18 @@ def _request_batch_is_strict(prog: Program, r: DispatcherRoles) -> bool:
             return False
     it = Interp(prog)
     res = it.analyze(bf, {EMPTY_ENV}, recv=V20 + '.BatchRequest')
-    return IDENTITY in res.raised_classes()
+    if IDENTITY not in res.raised_classes():
+        return False
+    # the request-side duplicate check must be at least as strict as the response-side one:
+    # only None ids are exempt, every other id (0 and "" included) is checked
+    from .c06 import dup_check_problems
+    add_ids = prog.funcs.get(V20 + '.BatchRequest._add_ids')
+    if add_ids is None:
+        return False
+    try:
+        return not dup_check_problems(prog, add_ids)
+    except AnalysisError:
+        return False
 
 
 def is_exception_class(prog: Program, cls: str) -> bool:
@@ -202,7 +213,27 @@ def _empty_batch(ck: Check, prog: Program, r: DispatcherRoles) -> None:
     ck.require('EMPTY-BATCH', f'batch response constructions in {short(f.qualname)}', found, 1)
 
 
+def _materialised(f: FuncInfo, var: str) -> Tuple[bool, str]:
+    """Is `var` a materialised sequence (so that truthiness / len() mean non-emptiness)?  A generator object is always truthy."""
+    defs = []
+    for st in walk_own(f.node):
+        if isinstance(st, ast.Assign) and any(isinstance(t, ast.Name) and t.id == var for t in st.targets):
+            defs.append(st.value)
+        elif isinstance(st, ast.AnnAssign) and isinstance(st.target, ast.Name) and st.target.id == var and st.value is not None:
+            defs.append(st.value)
+    for d in defs:
+        while isinstance(d, ast.Await):
+            d = d.value
+        if isinstance(d, (ast.GeneratorExp,)) or (isinstance(d, ast.Call) and dotted(d.func) in ('filter', 'map', 'iter', 'zip', 'reversed', 'it.chain', 'itertools.chain')):
+            return False, f'`{var} = {norm(d)[:60]}` is a lazy iterator: it is always truthy, so the emptiness test never fires'
+    return True, ''
+
+
 def _nonempty_guard(prog: Program, f: FuncInfo, cfg: CFG, n: Node, call: ast.Call, var: Optional[str]) -> Tuple[bool, str]:
+    if var is not None:
+        mat, why = _materialised(f, var)
+        if not mat:
+            return False, why
     # form 1: conditional expression  `B(*rs) if rs else UNSET`
     for frag in (n.ast,):
         for x in ast.walk(frag):
